@@ -288,7 +288,7 @@ func (r *AuthnRequest) Redirect(relayState string, sp *ServiceProvider) (*url.UR
 	compressedWriter, _ := flate.NewWriter(base64Writer, 9)
 	doc := etree.NewDocument()
 	doc.SetRoot(r.Element())
-	if _, err := doc.WriteTo(compressedWriter); err != nil {
+	if _, err := writeDocument(doc, compressedWriter); err != nil {
 		return nil, err
 	}
 	if err := compressedWriter.Close(); err != nil {
@@ -657,7 +657,7 @@ func (sp *ServiceProvider) MakePostAuthenticationRequest(relayState string) ([]b
 func (r *AuthnRequest) Post(relayState string) []byte {
 	doc := etree.NewDocument()
 	doc.SetRoot(r.Element())
-	reqBuf, err := doc.WriteToBytes()
+	reqBuf, err := documentBytes(doc)
 	if err != nil {
 		panic(err)
 	}
@@ -1420,7 +1420,7 @@ func (r *LogoutRequest) Redirect(relayState string) *url.URL {
 	w2, _ := flate.NewWriter(w1, 9)
 	doc := etree.NewDocument()
 	doc.SetRoot(r.Element())
-	if _, err := doc.WriteTo(w2); err != nil {
+	if _, err := writeDocument(doc, w2); err != nil {
 		panic(err)
 	}
 	if err := w2.Close(); err != nil {
@@ -1457,7 +1457,7 @@ func (sp *ServiceProvider) MakePostLogoutRequest(nameID, relayState string) ([]b
 func (r *LogoutRequest) Post(relayState string) []byte {
 	doc := etree.NewDocument()
 	doc.SetRoot(r.Element())
-	reqBuf, err := doc.WriteToBytes()
+	reqBuf, err := documentBytes(doc)
 	if err != nil {
 		panic(err)
 	}
@@ -1534,7 +1534,7 @@ func (r *LogoutResponse) Redirect(relayState string) *url.URL {
 	w2, _ := flate.NewWriter(w1, 9)
 	doc := etree.NewDocument()
 	doc.SetRoot(r.Element())
-	if _, err := doc.WriteTo(w2); err != nil {
+	if _, err := writeDocument(doc, w2); err != nil {
 		panic(err)
 	}
 	if err := w2.Close(); err != nil {
@@ -1571,7 +1571,7 @@ func (sp *ServiceProvider) MakePostLogoutResponse(logoutRequestID, relayState st
 func (r *LogoutResponse) Post(relayState string) []byte {
 	doc := etree.NewDocument()
 	doc.SetRoot(r.Element())
-	reqBuf, err := doc.WriteToBytes()
+	reqBuf, err := documentBytes(doc)
 	if err != nil {
 		panic(err)
 	}
@@ -1847,7 +1847,7 @@ func elementToBytes(el *etree.Element) ([]byte, error) {
 		doc.Root().CreateAttr("xmlns:"+space, uri)
 	}
 
-	return doc.WriteToBytes()
+	return documentBytes(doc)
 }
 
 // unmarshalElement serializes el into v by serializing el and then parsing it with xml.Unmarshal.
